@@ -24,6 +24,15 @@
 //!    store is driven to the stall threshold: the failed compaction must be off the `ongoing` list
 //!    (every later `sched.select` that found nothing reports the list's length, `verif_status` at
 //!    the end), every call returns.
+//!  * `wl` (the wait list of `KeyValueStore::write`; hooks/lsmtk-kvs-write-failed-events.diff): the
+//!    kvs real-thread grid with writers whose writes FAIL in 10..50% of their calls (the empty batch,
+//!    a batch whose last key / value is over-long: refused by the log after the write has taken its
+//!    place in the wait list), and a directed schedule in which one slow write is parked right after
+//!    it linked while another client submits 65 536 + 8 empty batches (`sync42::MAX_CONCURRENCY`
+//!    slots).  Oracle: every call returns (`client-call-never-returned` otherwise, decided from the
+//!    event log: the head of the wait list sleeps and the ticket before it was a failed write that
+//!    woke nobody; or `link` waits for a slot while it holds the store mutex).  The wait-list
+//!    events of every such run are replayed through `Blue.KvsWake` (`stall wake`).
 //!  * directed D-15 replays: trees in which the only relieving compaction exceeds
 //!    `max_compaction_files` (found single-stepped, or grown by the threads themselves when no
 //!    merge fits the limit), then real threads: everybody parks, decided by the accessor.
@@ -452,6 +461,9 @@ struct Workload {
     /// its first input and the thread returns the error; the directory is put back and a fresh
     /// thread takes over as compactor 0 (the premise: a compaction thread is running)
     fail_first: bool,
+    /// KVS mode: percentage of the writers' calls that are writes the store must refuse (after it
+    /// has linked them into the wait list)
+    fail_pct: u64,
 }
 
 /// the compaction that was made to fail: levels, number of inputs, how the thread ended
@@ -479,6 +491,9 @@ struct RunOut {
     problem: Option<String>,
     polls: u64,
     injected: Option<Injected>,
+    /// the events of the wait list of `KeyValueStore::write` (links, sleeps, exits)
+    wl_events: Vec<Event>,
+    failed_writes: u64,
 }
 
 enum Store {
@@ -550,6 +565,7 @@ fn run_threads(seed: u64, case: u64, tag: &str, cfg: &Cfg, w: &Workload, prepare
     let mut handles = vec![];
     let keys = alphabet(w.nkeys);
     let progress = Arc::new(AtomicU64::new(0));
+    let failed = Arc::new(AtomicU64::new(0));
     // one compaction that fails
     let mut injected: Option<Injected> = None;
     if w.fail_first {
@@ -634,6 +650,7 @@ fn run_threads(seed: u64, case: u64, tag: &str, cfg: &Cfg, w: &Workload, prepare
                 let role = Role::Writer(c);
                 let stop = Arc::clone(&stop);
                 let progress = Arc::clone(&progress);
+                let failed = Arc::clone(&failed);
                 handles.push(std::thread::spawn(move || {
                     let _ = tx.send(Msg::Hello(role, lsmtk::verif::thread_id()));
                     let mut res = Ok(());
@@ -648,6 +665,35 @@ fn run_threads(seed: u64, case: u64, tag: &str, cfg: &Cfg, w: &Workload, prepare
                         }
                         let vlen = rng.range(w.vlen.0, w.vlen.1) as usize;
                         let val: Vec<u8> = format!("c{}o{}", c, j).into_bytes().into_iter().chain(std::iter::repeat(b'.')).take(vlen.max(4)).collect();
+                        if w.fail_pct > 0 && rng.below(100) < w.fail_pct {
+                            // a write the store must refuse: it returns the error, and returns
+                            let kind = *rng.pick(&[0u8, 0, 1, 2]);
+                            let want = ["empty-batch", "key-too-large", "value-too-large"][kind as usize];
+                            let r = guarded(AssertUnwindSafe(|| {
+                                let mut wb = lsmtk::WriteBatch::with_capacity(3);
+                                if kind > 0 {
+                                    wb.put(&keys[0], &val);
+                                    if rng.chance(1, 2) {
+                                        wb.del(&keys[keys.len() - 1]);
+                                    }
+                                }
+                                match kind {
+                                    0 => {}
+                                    1 => wb.put(&vec![b'k'; sst::MAX_KEY_LEN + 1], b"x"),
+                                    _ => wb.put(b"\xff\xffover-long-value", &vec![b'.'; sst::MAX_VALUE_LEN + 1]),
+                                }
+                                k.write(wb).map_err(|e| err_class(&e))
+                            }))
+                            .unwrap_or_else(|p| Err(format!("panic:{}", p)));
+                            progress.fetch_add(1, Ordering::SeqCst);
+                            failed.fetch_add(1, Ordering::SeqCst);
+                            match r {
+                                Err(e) if e.contains(&format!("Atom(\"{}\")", want)) => continue,
+                                Err(e) => res = Err(format!("op {}: the failing write returned {} instead of {}", j, e, want)),
+                                Ok(()) => res = Err(format!("op {}: the failing write ({}) succeeded", j, want)),
+                            }
+                            break;
+                        }
                         let r = guarded(AssertUnwindSafe(|| {
                             if w.wide {
                                 let mut wb = lsmtk::WriteBatch::with_capacity(3);
@@ -741,6 +787,7 @@ fn run_threads(seed: u64, case: u64, tag: &str, cfg: &Cfg, w: &Workload, prepare
         exited_tids.insert(inj.thread);
     }
     let mut events: Vec<Event> = vec![];
+    let mut wl_events: Vec<Event> = vec![];
     let mut last_progress = Instant::now();
     let mut last_count = 0u64;
     const PATIENCE_S: u64 = 12;
@@ -778,7 +825,9 @@ fn run_threads(seed: u64, case: u64, tag: &str, cfg: &Cfg, w: &Workload, prepare
             // the log is drained as the run goes: new events or finished calls are progress
             // (only the scheduler's events: the monitor's own `verif_parked` takes snapshots, which
             // are events of other hooks)
-            let mut ev: Vec<Event> = lsmtk::verif::take_events().into_iter().filter(|e| e.2.starts_with("sched.")).collect();
+            let all = lsmtk::verif::take_events();
+            wl_events.extend(all.iter().filter(|e| is_wl_event(e.2)).cloned());
+            let mut ev: Vec<Event> = all.into_iter().filter(|e| e.2.starts_with("sched.")).collect();
             let count = progress.load(Ordering::SeqCst);
             if !ev.is_empty() || count != last_count {
                 last_progress = Instant::now();
@@ -825,6 +874,15 @@ fn run_threads(seed: u64, case: u64, tag: &str, cfg: &Cfg, w: &Workload, prepare
                 break;
             }
         }
+        // the head of the wait list asleep (it went into `naked_wait` behind a ticket that has left
+        // since) is woken by nobody: that is decided from the log, not by waiting
+        let wl = if w.kvs_mode && last_progress.elapsed() > Duration::from_secs(4) { wait_list_state(&wl_events) } else { WlState::default() };
+        if let Some(asleep_at) = wl.head_asleep_at {
+            let (parked, status) = store.parked();
+            // (with every client back it is the flush thread that sleeps there: the next write queues behind it)
+            problem = Some(format!("{}: no event and no call returned for {} s; the head of the wait list of KeyValueStore::write, {}, sleeps in naked_wait and nobody is going to wake it: the ticket before it, {}, left the list without notify_head (wait-list event {}); {} ticket(s) are linked, {} asleep; {} of {} clients done; store threads asleep on {:?}; should_stall_ingest={} selectable={} in flight={}", if clients_done < w.clients { "client-call-never-returned" } else { "wait-list-head-never-woken" }, last_progress.elapsed().as_secs(), wl.describe_head(), wl.last_leave, asleep_at, wl.queue.len(), wl.asleep.len(), clients_done, w.clients, parked.iter().map(|p| p.condvar).collect::<Vec<_>>(), status.0, status.1, status.2));
+            break;
+        }
         if last_progress.elapsed() > Duration::from_secs(PATIENCE_S) {
             // nothing has happened for a long time although the run has not ended: no event, no
             // call returned, no thread started or exited
@@ -846,7 +904,11 @@ fn run_threads(seed: u64, case: u64, tag: &str, cfg: &Cfg, w: &Workload, prepare
         std::thread::sleep(Duration::from_micros(300));
     }
     lsmtk::verif::events_enable(false);
-    events.append(&mut lsmtk::verif::take_events());
+    {
+        let all = lsmtk::verif::take_events();
+        wl_events.extend(all.iter().filter(|e| is_wl_event(e.2)).cloned());
+        events.extend(all.into_iter().filter(|e| e.2.starts_with("sched.")));
+    }
     let end_levels = store.tree().verif_dump();
     end_parked.sort();
     // a store thread that failed on a missing file: where is the file, and what does the manifest
@@ -906,7 +968,110 @@ fn run_threads(seed: u64, case: u64, tag: &str, cfg: &Cfg, w: &Workload, prepare
     drop(store);
     let _ = std::fs::remove_dir_all(&root);
     let _ = std::fs::remove_dir_all(&aux_dir);
-    Ok(RunOut { events, roles, end_parked, end_status, end_levels, start_l0: (start.l0, start.l0b), exits, clients_done, client_errors, problem, polls, injected })
+    let failed_writes = failed.load(Ordering::SeqCst);
+    Ok(RunOut { events, roles, end_parked, end_status, end_levels, start_l0: (start.l0, start.l0b), exits, clients_done, client_errors, problem, polls, injected, wl_events, failed_writes })
+}
+
+// ------------------------------------------------------- the wait list of KeyValueStore::write -----
+
+fn is_wl_event(tag: &str) -> bool {
+    matches!(tag, "kvs.write.begin.locked" | "kvs.write.wait.locked" | "kvs.write.finish.locked" | "kvs.write.abandon" | "kvs.write.abandon.locked" | "kvs.flush.rotate.locked" | "kvs.flush.wait.locked" | "kvs.flush.head.locked")
+}
+
+/// a ticket: a write (its sequence number) or the flush thread (the memtable it has just created)
+type Tk = (bool, u64);
+
+/// the wait list as its events show it, kept with no model involved: tickets in link order; who
+/// went to sleep (`naked_wait`) and has not been notified since (an exit under the store mutex
+/// calls `notify_head`, which wakes the new head; the early return of a failed write does not);
+/// the tokens of `Blue.KvsWake` for the Lean driver
+#[derive(Default)]
+struct WlState {
+    queue: Vec<Tk>,
+    asleep: Vec<Tk>,
+    ids: HashMap<Tk, usize>,
+    toks: Vec<String>,
+    /// the first event after which the head of the list was asleep
+    head_asleep_at: Option<usize>,
+    last_leave: String,
+    links: u64,
+    sleeps: u64,
+    left_in_turn: u64,
+    dropped: u64,
+    dropped_as_head_with_successor_asleep: u64,
+    unmapped: Vec<String>,
+}
+
+impl WlState {
+    fn name(t: &Tk) -> String {
+        if t.0 { format!("the flush thread (memtable {})", t.1) } else { format!("write {}", t.1) }
+    }
+    fn describe_head(&self) -> String {
+        self.queue.first().map(Self::name).unwrap_or_else(|| "-".into())
+    }
+}
+
+fn wait_list_state(events: &[Event]) -> WlState {
+    let mut s = WlState::default();
+    for (pos, (_, _, tag, a)) in events.iter().enumerate() {
+        let tk: Tk = (tag.starts_with("kvs.flush."), a[0]);
+        match *tag {
+            "kvs.write.begin.locked" | "kvs.flush.rotate.locked" => {
+                s.ids.insert(tk, s.ids.len());
+                s.queue.push(tk);
+                s.toks.push("K".into());
+                s.links += 1;
+            }
+            "kvs.write.wait.locked" | "kvs.flush.wait.locked" => match s.ids.get(&tk) {
+                Some(id) => {
+                    if s.asleep.contains(&tk) {
+                        // it sleeps already and checks again: a spurious wake-up
+                        s.toks.push(format!("S{}", id));
+                    } else {
+                        s.asleep.push(tk);
+                        s.sleeps += 1;
+                    }
+                    s.toks.push(format!("A{}", id));
+                }
+                None => s.unmapped.push(format!("{} of a ticket that never linked (event {})", tag, pos)),
+            },
+            "kvs.write.finish.locked" | "kvs.flush.head.locked" | "kvs.write.abandon.locked" | "kvs.write.abandon" => match s.ids.get(&tk) {
+                Some(id) => {
+                    let in_turn = *tag != "kvs.write.abandon";
+                    if in_turn {
+                        // (a ticket that slept and leaves now was woken: by the notification of the
+                        // ticket that left before it, or unprompted)
+                        if s.asleep.contains(&tk) {
+                            s.toks.push(format!("S{}", id));
+                        }
+                        s.toks.push(format!("A{}", id));
+                        s.left_in_turn += 1;
+                    } else {
+                        s.toks.push(format!("D{}", id));
+                        s.dropped += 1;
+                        if s.queue.first() == Some(&tk) && s.queue.iter().skip(1).any(|t| s.asleep.contains(t)) {
+                            s.dropped_as_head_with_successor_asleep += 1;
+                        }
+                    }
+                    s.queue.retain(|t| *t != tk);
+                    s.asleep.retain(|t| *t != tk);
+                    s.last_leave = format!("{}{}", WlState::name(&tk), if in_turn { "" } else { ", a write that failed" });
+                    if in_turn {
+                        // `notify_head`: the new head, if it sleeps, wakes
+                        if let Some(h) = s.queue.first().copied() {
+                            s.asleep.retain(|t| *t != h);
+                        }
+                    }
+                }
+                None => s.unmapped.push(format!("{} of a ticket that never linked (event {})", tag, pos)),
+            },
+            _ => {}
+        }
+        if s.head_asleep_at.is_none() && s.queue.first().map(|h| s.asleep.contains(h)).unwrap_or(false) {
+            s.head_asleep_at = Some(s.toks.len() - 1);
+        }
+    }
+    s
 }
 
 // ------------------------------------------------------------------ the log as a model run -----
@@ -1110,7 +1275,7 @@ fn run_case(rec: &mut Recorder, seed: u64, case: u64, label: &str, cfg: &Cfg, w:
     let mut fails: Vec<(String, String)> = vec![];
     if let Some(p) = &out.problem {
         let class = match p.split(':').next() {
-            Some(c) if ["notified-sleeper-did-not-wake", "client-call-never-returned", "no-progress"].contains(&c) => c,
+            Some(c) if ["notified-sleeper-did-not-wake", "client-call-never-returned", "wait-list-head-never-woken", "no-progress"].contains(&c) => c,
             _ => "run-did-not-end",
         };
         fails.push((class.into(), format!("{} {}: {}", label, cfg.render(), p)));
@@ -1201,6 +1366,155 @@ fn run_case(rec: &mut Recorder, seed: u64, case: u64, label: &str, cfg: &Cfg, w:
     };
     let fp = fnv(format!("{} {} {:?}", label, cfg.render(), w).as_bytes());
     rec.case(&req, &obs, verdict, if nontrivial { Some(fp) } else { None });
+    // ---- the wait list of KeyValueStore::write in the same run, as a run of Blue.KvsWake
+    if w.kvs_mode && !out.wl_events.is_empty() {
+        let wl = wait_list_state(&out.wl_events);
+        let req = format!("stall wake :: {}", wl.toks.join(" "));
+        let obs = format!("ok head={} end=q:{},asleep:{}", match wl.head_asleep_at { None => "ok".to_string(), Some(p) => format!("asleep@{}", p) }, wl.queue.len(), wl.asleep.len());
+        rec.add("wl.links", wl.links);
+        rec.add("wl.tickets_that_slept", wl.sleeps);
+        rec.add("wl.exits_in_turn", wl.left_in_turn);
+        rec.add("wl.failed_writes", out.failed_writes);
+        rec.add("wl.failed_writes_dropping_their_guard_out_of_turn", wl.dropped);
+        rec.add("wl.failed_writes_dropping_their_guard_as_head_with_a_successor_asleep", wl.dropped_as_head_with_successor_asleep);
+        let verdict = match wl.unmapped.first() {
+            Some(u) => Verdict::Fail { class: "trace-unmappable".into(), detail: u.clone() },
+            // (a run that ended with the head asleep is reported by the case above: client-call-never-returned)
+            None => Verdict::Ok,
+        };
+        let nt = wl.sleeps > 0 && (w.fail_pct == 0 || out.failed_writes > 0);
+        rec.case(&req, &obs, verdict, if nt { Some(fnv(format!("wake {} {} {:?}", label, cfg.render(), w).as_bytes())) } else { None });
+    }
+}
+
+// ------------------------------------------------------------------------ the ring, directed -----
+
+thread_local! {
+    static RING_ROLE: std::cell::Cell<u64> = const { std::cell::Cell::new(0) };
+}
+
+/// one slow write is parked right after it has linked; another client submits `MAX_CONCURRENCY + 8`
+/// empty batches, each of which links and fails.  A store whose failed writes leave in their turn
+/// has the first of them wait behind the slow write; a store whose failed writes drop their guard
+/// at once fills the ring of the wait list behind the slow write (slots are reclaimed only when
+/// the head moves) and then waits for a slot inside `link` — holding the store mutex, which the
+/// slow write needs in order to leave.
+fn run_ring(rec: &mut Recorder, case: u64) {
+    use std::sync::{Condvar, Mutex};
+    let tag = format!("c20ring.{}", case);
+    let root = crate::store::scratch_dir(&tag);
+    let mut cfg = Cfg::base();
+    cfg.memtable = 1 << 22;
+    let n = sync42::MAX_CONCURRENCY as u64 + 8;
+    let label = "ring";
+    let req = format!("# ring {} slots, {} empty batches behind one parked write", sync42::MAX_CONCURRENCY, n);
+    let kvs = match KeyValueStore::open(cfg.options(&root)) {
+        Ok(k) => Arc::new(k),
+        Err(e) => {
+            rec.case(&req, &req, Verdict::Fail { class: "run-setup-error".into(), detail: err_class(&e) }, None);
+            return;
+        }
+    };
+    lsmtk::verif::events_enable(false);
+    let ctl: Arc<(Mutex<(bool, bool)>, Condvar)> = Arc::new((Mutex::new((false, false)), Condvar::new()));
+    {
+        let ctl = Arc::clone(&ctl);
+        lsmtk::verif::set_pause_hook(Some(Arc::new(move |tag, _| {
+            if tag == "kvs.write.linked" && RING_ROLE.with(|r| r.get()) == 1 {
+                let (m, cv) = &*ctl;
+                let mut g = m.lock().unwrap();
+                g.0 = true;
+                cv.notify_all();
+                while !g.1 {
+                    g = cv.wait(g).unwrap();
+                }
+            }
+        })));
+    }
+    let slow_done = Arc::new(std::sync::atomic::AtomicBool::new(false));
+    let failer_done = Arc::new(std::sync::atomic::AtomicBool::new(false));
+    let count = Arc::new(AtomicU64::new(0));
+    let wrong = Arc::new(AtomicU64::new(0));
+    let slow = {
+        let (kvs, d) = (Arc::clone(&kvs), Arc::clone(&slow_done));
+        std::thread::spawn(move || {
+            RING_ROLE.with(|r| r.set(1));
+            let r = guarded(AssertUnwindSafe(|| kvs.put(b"slow", b"v").is_ok())).unwrap_or(false);
+            d.store(true, Ordering::SeqCst);
+            r
+        })
+    };
+    let parked = {
+        let (m, cv) = &*ctl;
+        let g = m.lock().unwrap();
+        let (g, _) = cv.wait_timeout_while(g, Duration::from_secs(30), |g| !g.0).unwrap();
+        g.0
+    };
+    let failer = {
+        let (kvs, d, c, wr) = (Arc::clone(&kvs), Arc::clone(&failer_done), Arc::clone(&count), Arc::clone(&wrong));
+        std::thread::spawn(move || {
+            for _ in 0..n {
+                match guarded(AssertUnwindSafe(|| kvs.write(lsmtk::WriteBatch::default()).map_err(|e| err_class(&e)))) {
+                    Ok(Err(e)) if e.contains("empty-batch") => {}
+                    _ => {
+                        wr.fetch_add(1, Ordering::SeqCst);
+                    }
+                }
+                c.fetch_add(1, Ordering::SeqCst);
+            }
+            d.store(true, Ordering::SeqCst);
+        })
+    };
+    // until the failing client stops getting anywhere (it sleeps behind the parked write, or waits
+    // for a slot) or is through
+    let mut last = (count.load(Ordering::SeqCst), Instant::now());
+    let t0 = Instant::now();
+    while !failer_done.load(Ordering::SeqCst) && t0.elapsed() < Duration::from_secs(60) {
+        std::thread::sleep(Duration::from_millis(10));
+        let c = count.load(Ordering::SeqCst);
+        if c != last.0 {
+            last = (c, Instant::now());
+        } else if last.1.elapsed() > Duration::from_millis(500) {
+            break;
+        }
+    }
+    let before = count.load(Ordering::SeqCst);
+    {
+        let (m, cv) = &*ctl;
+        m.lock().unwrap().1 = true;
+        cv.notify_all();
+    }
+    let t0 = Instant::now();
+    while !(slow_done.load(Ordering::SeqCst) && failer_done.load(Ordering::SeqCst)) && t0.elapsed() < Duration::from_secs(30) {
+        std::thread::sleep(Duration::from_millis(10));
+    }
+    let (sd, fd) = (slow_done.load(Ordering::SeqCst), failer_done.load(Ordering::SeqCst));
+    lsmtk::verif::set_pause_hook(None);
+    let obs = format!("# ring parked={} slow-write-returned={} failing-client-returned={} failed-before-release={}", parked, sd, fd, if before >= sync42::MAX_CONCURRENCY as u64 - 1 { "ring-full".to_string() } else { before.to_string() });
+    rec.aux(&format!("run {} {} failed-before-release={} of {} wrong-results={}", case, label, before, n, wrong.load(Ordering::SeqCst)));
+    rec.count("run.ring");
+    let verdict = if !parked {
+        Verdict::Fail { class: "run-setup-error".into(), detail: "the slow write never reached kvs.write.linked (hooks/lsmtk-kvs-write-failed-events.diff missing?)".into() }
+    } else if !(sd && fd) {
+        Verdict::Fail {
+            class: "client-call-never-returned".into(),
+            detail: format!("ring: one write was parked right after it linked into the wait list of KeyValueStore::write; {} empty batches then failed and left the list out of their turn (their slots are reclaimed only when the head moves: the ring has {} slots); the next link waits for a slot while it holds the store mutex, which the parked write needs in order to leave: after its release the slow write returned={}, the failing client returned={} (30 s)", before, sync42::MAX_CONCURRENCY, sd, fd),
+        }
+    } else if wrong.load(Ordering::SeqCst) > 0 {
+        Verdict::Fail { class: "client-call-failed".into(), detail: format!("{} empty batches were not refused with empty-batch", wrong.load(Ordering::SeqCst)) }
+    } else {
+        Verdict::Ok
+    };
+    rec.case(&req, &obs, verdict, Some(fnv(req.as_bytes())));
+    if sd && fd {
+        let _ = slow.join();
+        let _ = failer.join();
+        drop(kvs);
+        let _ = std::fs::remove_dir_all(&root);
+    } else {
+        // threads sleep inside the store for ever: leave them and the store behind
+        std::mem::forget(kvs);
+    }
 }
 
 fn no_prepare(_: &Store, _: &str) -> Result<(), String> {
@@ -1246,7 +1560,7 @@ fn gen_workload(rng: &mut Rng, kvs_mode: bool, thorough: bool) -> Workload {
     let clients = if kvs_mode { rng.range(1, 4) as usize } else { rng.range(2, 4) as usize };
     let budget = if thorough { 90 } else { 45 };
     let ops = if kvs_mode { rng.range(budget / 3, budget) as usize } else { (rng.range(budget / 9, budget / 3) as usize).max(3) };
-    Workload { compactors, kvs_mode, clients, ops, nkeys: *rng.pick(&[4usize, 8, 16]), wide: rng.chance(1, 2), vlen: (4, *rng.pick(&[12u64, 40, 90])), pause: *rng.pick(&[0u64, 3, 6]), until_stall: false, fail_first: false }
+    Workload { compactors, kvs_mode, clients, ops, nkeys: *rng.pick(&[4usize, 8, 16]), wide: rng.chance(1, 2), vlen: (4, *rng.pick(&[12u64, 40, 90])), pause: *rng.pick(&[0u64, 3, 6]), until_stall: false, fail_first: false, fail_pct: 0 }
 }
 
 /// D-15, found single-stepped: write and flush overlapping files, compacting to quiescence in
@@ -1384,7 +1698,7 @@ fn prepare_fail_shape(store: &Store, aux: &str, shape: u64, nkeys: usize) -> Res
 pub fn run(args: &Args) {
     let mut rec = Recorder::new(&args.out, args.only_case);
     let seed = args.seed;
-    let streams = std::env::var("C20_STREAMS").unwrap_or_else(|_| "sel,run,d15,fail".to_string());
+    let streams = std::env::var("C20_STREAMS").unwrap_or_else(|_| "sel,run,d15,fail,wl".to_string());
     let timing = std::env::var("C20_TIMING").is_ok();
     // ---- stream 1: selector differential on single-stepped states
     let (nh, len) = if args.thorough { (180, 60) } else { (48, 40) };
@@ -1436,7 +1750,7 @@ pub fn run(args: &Args) {
                 cfg.target_file = 128;
                 let nkeys = *rng.pick(&[8usize, 16, 30]);
                 let per = *rng.pick(&[2usize, 4, 6]);
-                let w = Workload { compactors: rng.range(1, 4) as usize, kvs_mode: true, clients: rng.range(1, 3) as usize, ops: 12, nkeys: 6, wide: true, vlen: (8, 30), pause: 3, until_stall: false, fail_first: false };
+                let w = Workload { compactors: rng.range(1, 4) as usize, kvs_mode: true, clients: rng.range(1, 3) as usize, ops: 12, nkeys: 6, wide: true, vlen: (8, 30), pause: 3, until_stall: false, fail_first: false, fail_pct: 0 };
                 label = "d15-prepared";
                 run_case(&mut rec, seed, case, label, &cfg, &w, true, &move |s: &Store, _: &str| prepare_stalled_tree(s, nkeys, per));
             }
@@ -1446,7 +1760,7 @@ pub fn run(args: &Args) {
                 cfg.stall_files = *rng.pick(&[2u64, 3, 4]);
                 cfg.mcf = 1;
                 cfg.mand_files = *rng.pick(&[1u64, 4]);
-                let w = Workload { compactors: rng.range(1, 3) as usize, kvs_mode: true, clients: 2, ops: 4000, nkeys: 6, wide: true, vlen: (30, 60), pause: 4, until_stall: true, fail_first: false };
+                let w = Workload { compactors: rng.range(1, 3) as usize, kvs_mode: true, clients: 2, ops: 4000, nkeys: 6, wide: true, vlen: (30, 60), pause: 4, until_stall: true, fail_first: false, fail_pct: 0 };
                 label = "d15-grown-kvs";
                 run_case(&mut rec, seed, case, label, &cfg, &w, true, &no_prepare);
             }
@@ -1456,7 +1770,7 @@ pub fn run(args: &Args) {
                 cfg.stall_files = *rng.pick(&[2u64, 3]);
                 cfg.mcf = 1;
                 cfg.mand_files = 1;
-                let w = Workload { compactors: rng.range(1, 3) as usize, kvs_mode: false, clients: 3, ops: 8, nkeys: 6, wide: true, vlen: (8, 30), pause: 3, until_stall: false, fail_first: false };
+                let w = Workload { compactors: rng.range(1, 3) as usize, kvs_mode: false, clients: 3, ops: 8, nkeys: 6, wide: true, vlen: (8, 30), pause: 3, until_stall: false, fail_first: false, fail_pct: 0 };
                 label = "d15-grown-tree";
                 run_case(&mut rec, seed, case, label, &cfg, &w, true, &no_prepare);
             }
@@ -1487,11 +1801,11 @@ pub fn run(args: &Args) {
         let w = if shape == 4 {
             // under a file limit of 2 further ingests run into D-15 (the merged level 1 is split
             // along the files below it): the failed merge is retried by the fresh thread, no client
-            Workload { compactors, kvs_mode, clients: 0, ops: 0, nkeys: 6, wide: true, vlen: (8, 30), pause: 0, until_stall: false, fail_first: true }
+            Workload { compactors, kvs_mode, clients: 0, ops: 0, nkeys: 6, wide: true, vlen: (8, 30), pause: 0, until_stall: false, fail_first: true, fail_pct: 0 }
         } else if kvs_mode {
-            Workload { compactors, kvs_mode: true, clients: 2, ops: 40, nkeys: 6, wide: true, vlen: (30, 60), pause: 4, until_stall: false, fail_first: true }
+            Workload { compactors, kvs_mode: true, clients: 2, ops: 40, nkeys: 6, wide: true, vlen: (30, 60), pause: 4, until_stall: false, fail_first: true, fail_pct: 0 }
         } else {
-            Workload { compactors, kvs_mode: false, clients: 3, ops: 8, nkeys: 6, wide: true, vlen: (8, 30), pause: 3, until_stall: false, fail_first: true }
+            Workload { compactors, kvs_mode: false, clients: 3, ops: 8, nkeys: 6, wide: true, vlen: (8, 30), pause: 3, until_stall: false, fail_first: true, fail_pct: 0 }
         };
         let label = format!("fail-shape{}-{}", shape, if kvs_mode { "kvs" } else { "tree" });
         run_case(&mut rec, seed, 20_000 + f, &label, &cfg, &w, false, &move |s: &Store, aux: &str| prepare_fail_shape(s, aux, shape, 6));
@@ -1499,8 +1813,29 @@ pub fn run(args: &Args) {
             eprintln!("fail {} {} {:?} {}", f, label, t0.elapsed(), cfg.render());
         }
     }
+    // ---- stream 5: the wait list of KeyValueStore::write with writes that fail
+    let nw = if args.thorough { 40 } else { 10 };
+    for r in 0..(if streams.contains("wl") { nw } else { 0 }) {
+        let t0 = Instant::now();
+        let mut rng = Rng::for_case(seed, 2005, r);
+        let mut w = gen_workload(&mut rng, true, args.thorough);
+        w.clients = rng.range(2, 4) as usize;
+        w.fail_pct = *rng.pick(&[10u64, 25, 50]);
+        let cfg = gen_cfg_run(&mut rng, 0);
+        run_case(&mut rec, seed, 30_000 + r, "wl-failing-writes", &cfg, &w, false, &no_prepare);
+        if timing {
+            eprintln!("wl {} {:?} {} {:?}", r, t0.elapsed(), cfg.render(), w);
+        }
+    }
+    for r in 0..(if streams.contains("wl") { if args.thorough { 2 } else { 1 } } else { 0 }) {
+        if rec.wants() {
+            run_ring(&mut rec, 31_000 + r);
+        } else {
+            rec.skip();
+        }
+    }
     rec.finish(
-        "four streams on the real store (scheduler hooks of /repo 6de6846). sel: single-stepped histories (writes over 3-30 keys, flushes, compaction steps; a third of them with ingest given priority so that level 0 sits at the stall threshold) over an options grid (stall / mandatory thresholds in files and bytes, stall below mandatory, max_compaction_files above / at / below the stall threshold, max_compaction_bytes, max_open_files 6-24 with the cache off, memtable and target file sizes); after every op should_stall_ingest / next_compaction().is_some() and the tree summary (|L0|, bytes, level-1 files under the hull, sel, D-15 trigger) vs. the Lean selector model; non-trivial = level 0 and a deeper level both hold files, distinct by tree. run: real threads (1-4 compaction threads, flush thread + 1-4 writers doing put/del/batch, or 2-4 direct LsmTree::ingest callers; thresholds 1-6 files or 300-2500 bytes, file limit down to threshold+2, compaction byte limit 400-6000), the complete scheduling event log abstracted to the alphabet of Blue.Stall and replayed by the Lean driver, end of run decided by the parked-on accessor, oracle on the log itself; non-trivial = an ingest parked on `stall` and a compaction thread parked on `compact` at least once, distinct by configuration (traces vary with the schedule, verdicts do not). d15: directed replays of the permanent stall (tree found single-stepped then real threads; or grown by the threads themselves), every one expected to end with every store thread asleep. fail: on a tree built single-stepped, sst/ is put out of reach and a compaction thread started: the compaction it selects (move 0->1, move 1->2, move 6->7, the garbage-collecting merge 14->15, the mandatory merge of level 0 into level 1) fails on its first input and the thread returns the error; sst/ is put back, a fresh thread takes over, 1-3 compaction threads and ingest callers / writers run to the stall threshold and beyond; oracle: the ongoing list every later selection saw holds exactly the compactions in flight, is empty at the end, every call returns, nobody is left asleep on `stall`. A run that makes no progress (no scheduler event, no call returned) for 12 s is cut off and classified from the registry (notified sleeper that never woke / client call that never returned).",
+        "five streams on the real store (scheduler hooks of /repo 6de6846). sel: single-stepped histories (writes over 3-30 keys, flushes, compaction steps; a third of them with ingest given priority so that level 0 sits at the stall threshold) over an options grid (stall / mandatory thresholds in files and bytes, stall below mandatory, max_compaction_files above / at / below the stall threshold, max_compaction_bytes, max_open_files 6-24 with the cache off, memtable and target file sizes); after every op should_stall_ingest / next_compaction().is_some() and the tree summary (|L0|, bytes, level-1 files under the hull, sel, D-15 trigger) vs. the Lean selector model; non-trivial = level 0 and a deeper level both hold files, distinct by tree. run: real threads (1-4 compaction threads, flush thread + 1-4 writers doing put/del/batch, or 2-4 direct LsmTree::ingest callers; thresholds 1-6 files or 300-2500 bytes, file limit down to threshold+2, compaction byte limit 400-6000), the complete scheduling event log abstracted to the alphabet of Blue.Stall and replayed by the Lean driver, end of run decided by the parked-on accessor, oracle on the log itself; non-trivial = an ingest parked on `stall` and a compaction thread parked on `compact` at least once, distinct by configuration (traces vary with the schedule, verdicts do not). d15: directed replays of the permanent stall (tree found single-stepped then real threads; or grown by the threads themselves), every one expected to end with every store thread asleep. fail: on a tree built single-stepped, sst/ is put out of reach and a compaction thread started: the compaction it selects (move 0->1, move 1->2, move 6->7, the garbage-collecting merge 14->15, the mandatory merge of level 0 into level 1) fails on its first input and the thread returns the error; sst/ is put back, a fresh thread takes over, 1-3 compaction threads and ingest callers / writers run to the stall threshold and beyond; oracle: the ongoing list every later selection saw holds exactly the compactions in flight, is empty at the end, every call returns, nobody is left asleep on `stall`. wl: the kvs real-thread grid with 2-4 writers of whose calls 10/25/50% are writes the store must refuse after linking them into the wait list (empty batch, over-long last key / value), every call must return and return that error; one directed schedule: a write parked right after it linked while another client submits MAX_CONCURRENCY + 8 empty batches; the wait-list events (link / sleep / exit in turn / guard dropped) of every kvs-mode run are replayed through Blue.KvsWake (`stall wake`: every event enabled, head never asleep, nobody left at the end). A run that makes no progress (no scheduler event, no call returned) for 12 s is cut off and classified from the registry (notified sleeper that never woke / client call that never returned); a run in which the head of the wait list sleeps un-notified is cut off after 4 s (decided from the event log).",
         &[],
     );
 }
